@@ -80,11 +80,20 @@ func RunC08(tier string) int {
 			keep = !run.Violation(sig, what, replay(obs)) || keep
 		}
 		writerRoot := rootA // the machine whose build wrote the results being audited
+		var onlyResults map[string]bool // if set: audit only these target results (the ones a given build wrote)
 		auditRemote := func(when string) bool {
 			if kind == "a-put-dropped" {
 				return true // the store acknowledged a PUT and dropped it: nothing grog can know
 			}
-			rep := audit.Audit(audit.Store(fs3.Store(bucketPrefix)))
+			st := audit.Store(fs3.Store(bucketPrefix))
+			if onlyResults != nil {
+				for k := range st {
+					if strings.HasPrefix(k, "target/") && !onlyResults[k] {
+						delete(st, k)
+					}
+				}
+			}
+			rep := audit.Audit(st)
 			run.Count("remote_objects_audited", rep.CasOK+rep.TargetOK+len(rep.CasBad)+len(rep.TargetBad))
 			if !rep.Clean() {
 				what := "dangling-remote-ref"
@@ -317,8 +326,17 @@ func RunC08(tier string) int {
 				viol("build-failed-on-expired-remote-blob", "machine B's build failed although a missing remote object must degrade to a cache miss: "+tail(obsB.Res.Stdout+obsB.Res.Stderr, 400), obsB)
 				return
 			}
+			// (results that only A wrote and that lost a blob to the lifecycle rule are not B's
+			// business: B is judged on the results it wrote itself)
 			writerRoot = rootB
-			if !auditRemote("after machine B rebuilt what had lost a blob in the remote store") {
+			onlyResults = map[string]bool{}
+			for _, k := range fs3.PutKeys("/target/") {
+				onlyResults[strings.TrimPrefix(k, bucketPrefix+"/")] = true
+			}
+			run.Count("results_rewritten_by_B_after_blob_expiry", len(onlyResults))
+			ok := auditRemote("after machine B rebuilt what had lost a blob in the remote store")
+			onlyResults = nil
+			if !ok {
 				return
 			}
 			// ... so that a third machine restores everything without executing
@@ -338,7 +356,7 @@ func RunC08(tier string) int {
 			}
 			run.Count("third_machine_builds_after_remote_healing", 1)
 		}
-		if !auditRemoteQuiet(fs3, bucketPrefix) && kind != "a-put-dropped" {
+		if !auditRemoteQuiet(fs3, bucketPrefix) && kind != "a-put-dropped" && kind != "blobs-expired-then-B-then-C" {
 			auditRemote("at the end of the scenario")
 			return
 		}
